@@ -43,12 +43,15 @@ void h_parinit(void) {
   in_gstat.panel_histo = (0 <= hw && hw < HC) ? in_histo + (HC - 1 - hw) : in_histo;
   g_ret = ParallelInit(in_n, in_relax, &in_opt, &in_sh);
   __CPROVER_assert(0, "canary: ParallelInit returns");
-#if !TREE
+#if LAYOUT
   if (in_n == CAP && in_relax[0].size == 1 && in_relax[1].size == CAP) __CPROVER_assert(0, "canary: whole matrix is one relaxed supernode");
   if (in_n == CAP && in_relax[0].size == 2 && in_sh.tasks_remain >= 4) __CPROVER_assert(0, "canary: two relaxed supernodes and at least two regular panels");
-  if (in_sh.num_splits >= 1) __CPROVER_assert(0, "canary: a panel is split (SPLIT_TOP)");
-#else
-  if (in_n >= 4 && in_sh.pan_status[2].size == 2 && in_sh.pan_status[2].type == REGULAR_PANEL) __CPROVER_assert(0, "canary: regular panel of width 2");
+#endif
+#if COUNTS
+  if (in_n == CAP && in_relax[0].size == CAP) __CPROVER_assert(0, "canary: only relaxed supernodes (all singletons)");
+  if (in_sh.num_splits >= 1 && in_sh.tasks_remain > in_relax[0].size + 1) __CPROVER_assert(0, "canary: a panel is split (SPLIT_TOP), several regular panels");
+#endif
+#if TREE
   if (in_n >= 5 && in_opt.panel_size >= 4 && in_sh.pan_status[2].size == 1 && in_sh.pan_status[2].type == REGULAR_PANEL && in_sh.pan_status[3].size > 0 && in_sh.pan_status[3].type == REGULAR_PANEL && in_sh.pan_status[3].ukids >= 2) __CPROVER_assert(0, "canary: regular panel cut at an etree branch point");
   if (in_sh.pan_status[in_n].ukids >= 2) __CPROVER_assert(0, "canary: forest with several roots");
 #endif
